@@ -8,7 +8,7 @@ RULE = ("random schedules over 1 root gate, up to 6 clones, 3 queue links and 3 
 TRUSTED_BASE = [
     "Coq 8.16.1 kernel (coqc; coqchk in thorough); no native_compute",
     "extraction with ExtrOcamlBasic only; OCaml driver oracle/{conv,eng_c08,oracle}.ml (incl. the macro-step scheduler: root drains its queue after every command, blocked publishers retry first-come first-served)",
-    "Rust harness /verif/harness (engine c08) over rotonda::comms (public API + Link::verif_resume hook, feature verif-hooks), paused-clock current_thread tokio runtime",
+    "Rust harness /verif/harness (engine c08) over rotonda::comms (public API + Link::verif_resume hook, feature verif-hooks), paused-clock current_thread tokio runtime; c08-soak: multi_thread runtime, logical clock, judge written in Rust",
     "modelled, not verified: src/comms.rs Gate/Link/DirectLink; each FrimMap operation and each handled command is one atomic step (C18)",
     "NOT modelled (exercised only): tokio scheduling, tokio::sync::mpsc internals (assumed: FIFO, bounded, fair hand-over of freed capacity, recv() = None when all senders are gone), Reconfigure",
 ]
